@@ -346,6 +346,9 @@ class Check:
         elif self.broken:
             for b in self.broken[:5]:
                 out_lines.append("  also no longer checks: %s" % b[:600])
+        if unlisted > 5:
+            out_lines.append("  ... and %d more violations: %s" % (unlisted - 5, "; ".join(sorted(set(
+                v["key"] for v in self.violations if not any(k[0] == self.id and k[1] == v["key"] for k in known)))[:40])))
         cov = dict(self.cov)
         cov["distinct_nontrivial"] = len(self._distinct)
         a = self.stageA
